@@ -70,7 +70,7 @@ DIRECTED = {
                              "caddcal 0 cal0 0", "nfree 0", "cpdel 0 4", "cpdel 0 3", "nsolve 1", "nfree 1", "cfree 0"],
     # ---- self-aliasing family (checks/C03.py, docs/design_C03.md): the pointer a getter returns handed to a mutator of the same object, every
     # allocation of the mutator failing once.  vnacal_save to the name the object reports (D70: a failed strdup must keep the old name)
-    "cal_save_own_filename": ["ccreate 0 1", "nalloc 0 0 0 1 1 2", "nsetfv 0 0"] + SOL1 + ["nsolve 0", "caddcal 0 cal0 0", "csave 0 0", "casave 0 0", "cload 1 0 1", "casave 1 1",
+    "cal_save_own_filename": ["ccreate 0 1", "nalloc 0 0 0 1 1 2", "nsetfv 0 0"] + SOL1 + ["nsolve 0", "caddcal 0 cal0 0", "csave 0 0", "csave 0 0", "casave 0 0", "cload 1 0 1", "casave 1 1", "csave 1 0",
                               "cgets 1 0", "casave 0 1", "cfree 1", "caload 1 0 0", "cgets 0 0"],
     "alias_prop": ["pset 0 a.b=hello", "pset 0 a.c=world", "pset 0 k=v", "pset 0 y={a:%20[1,%202]}", "paset 0 0 k k %00", "paset 0 0 k k _a_longer_suffix_so_that_the_value_is_reallocated",
                    "paset 0 0 a.b l[+] %00", "pacopy 1 0 a", "pacopy 0 0 a", "pset 0 y={a:%20[1,%202]}", "paimports 0 0 y 1", "pdig 0", "pdig 1"],
